@@ -111,8 +111,7 @@ func zzAddUnique(l []string, s string) []string {
 func VerifC14_Batches() {
 	cfg := &config.Config{ConfigMapName: "ing/cfg", TCPConfigMapName: "ing/tcp"}
 	val := &zzVal{answers: map[*networking.Ingress]bool{}}
-	w := &watchers{cfg: cfg, val: val}
-	w.initCh()
+	w := createWatchers(context.Background(), cfg, val)
 	val.w = w
 	q := &zzQueue{w: w}
 	hs := w.getHandlers()
